@@ -70,6 +70,11 @@ func modes() []mode {
 		ms = append(ms, mode{name: fmt.Sprintf("backend-500-json-%dKiB", pad>>10), backend: true, status: 500, json: true, pad: pad})
 		ms = append(ms, mode{name: fmt.Sprintf("backend-503-text-%dKiB", pad>>10), backend: true, status: 503, json: false, pad: pad})
 	}
+	// a status line no HTTP server can relay (below 100): the backend produced nothing that can be passed on, which is a
+	// failure to report - not a dropped connection
+	for _, st := range []int{1, 99} {
+		ms = append(ms, mode{name: fmt.Sprintf("unrelayable-status-%03d", st), status: st})
+	}
 	ms = append(ms, mode{name: "malformed-json-200"})
 	// every endpoint has refused six requests in a row and is still listed healthy: the olla engine's per-endpoint
 	// breakers are open and every candidate is skipped without being contacted - that, too, is a failure to report
@@ -313,6 +318,11 @@ func runConfig(engine string, rt route, k int, rg routing) {
 					b.SetFixed(stack.Behaviour{Kind: "respond", Status: 200, Framing: "cl", Body: []byte(body), Cut: -1, After: "complete", Headers: [][2]string{{"Content-Type", ct}}})
 				}
 			default:
+				if strings.HasPrefix(m.name, "unrelayable-status-") {
+					for _, b := range bes {
+						b.SetFixed(stack.Behaviour{Kind: "respond", Status: m.status, Framing: "cl", Body: []byte(backendErrJSON), Cut: -1, After: "complete", Headers: [][2]string{{"Content-Type", "application/json"}}})
+					}
+				}
 				if m.backend {
 					body, ct := errBody(m), "application/json"
 					if !m.json {
@@ -391,7 +401,9 @@ func judge(engine string, rt route, k int, m mode, stream bool, r *stack.Resp, d
 		}
 	}
 	// dialect: errors olla itself produces on Anthropic routes are Anthropic error objects
-	ollaMade := !m.backend
+	// (an unrelayable status is answered with olla's 502 over the backend's own body on the routes that do not
+	// translate: that body is not olla's, so no dialect is demanded of it there)
+	ollaMade := !m.backend && !strings.HasPrefix(m.name, "unrelayable-status-")
 	if rt.anthropic && (ollaMade || rt.translated) {
 		var doc struct {
 			Type  string `json:"type"`
